@@ -183,6 +183,8 @@ type c16Case struct {
 	Config   c16Config `json:"config"`
 	Context  string    `json:"context"`
 	Fragment string    `json:"fragment"`
+	// Uses: layout "magnitudes" only - how often the three names are used, in document order
+	Uses []int `json:"uses,omitempty"`
 }
 
 type c16Env struct {
@@ -281,6 +283,10 @@ func checkC16(c *core.Ctx) {
 			c.Res.InfraError = "bad replay: " + err.Error()
 			return
 		}
+		if cs.Layout == "magnitudes" {
+			c16MagnitudeCase(c, cs.Uses)
+			return
+		}
 		env := c16Setup(c, cs.Layout, cs.Config, 0)
 		items, _, _ := env.complete(cs.Line, cs.Cursor)
 		var labels []string
@@ -293,6 +299,18 @@ func checkC16(c *core.Ctx) {
 	}
 	c.Bound("symbol table", "6 accounts, 5 payees (one partly written as payee | note, one with brackets in its name), 3 commodities, 3 tags with 0-2 values; use counts with ties and strict orders; single file, root + included file, root + included file + workspace, root + two included files that are open with unsaved edits")
 	c.Bound("configurations", "maxResults {1,2,3,5,50,200} x fuzzy on/off x counts on/off")
+	// frequency ranking at larger use counts: three names whose counts straddle a
+	// power of two, the least used one first in the document
+	mags := [][]int{{2, 3, 5}, {120, 127, 130}, {250, 257, 300}, {500, 513, 600}, {1000, 1025, 1100}, {1100, 1400, 1900}, {2040, 2050, 2100}}
+	if c.Thorough() {
+		mags = append(mags, []int{4090, 4100, 4200}, []int{16380, 16390, 16400}, []int{32760, 32770, 33000})
+	}
+	c.Bound("use counts", fmt.Sprintf("accounts and payees used %v times (accounts twice that), least used first in the document, nothing typed", mags))
+	for _, uses := range mags {
+		if c.Mine() {
+			c16MagnitudeCase(c, uses)
+		}
+	}
 	sampled := 0
 	envIdx := 0
 	for _, layout := range layouts {
@@ -359,7 +377,7 @@ func checkC16(c *core.Ctx) {
 						items, _, errs := env.complete(line, cursor)
 						c.Res.Evaluations++
 						if errs != "" {
-							c.Violate("completion fails|"+firstLine(errs), "completion returns a result", errs, c16Case{layout, line, cursor, env.conf, ln.Context, frag})
+							c.Violate("completion fails|"+firstLine(errs), "completion returns a result", errs, c16Case{layout, line, cursor, env.conf, ln.Context, frag, nil})
 							continue
 						}
 						c16CheckResponse(c, model, env, ln, line, cursor, frag, true, items, i)
@@ -382,7 +400,7 @@ func checkC16(c *core.Ctx) {
 						}
 						if fmt.Sprint(la) != fmt.Sprint(want) {
 							c.Violate(fmt.Sprintf("limit law|%s context|fuzzy=%v", ln.Context, group[a].Fuzzy), "a smaller maximum returns a prefix of the list for a larger one",
-								fmt.Sprintf("line %q max=%d: %v\nmax=%d: %v", line, group[a].Max, la, group[a+1].Max, lb), c16Case{layout, line, cursor, group[a], ln.Context, frag})
+								fmt.Sprintf("line %q max=%d: %v\nmax=%d: %v", line, group[a].Max, la, group[a+1].Max, lb), c16Case{layout, line, cursor, group[a], ln.Context, frag, nil})
 						}
 					}
 				}
@@ -429,7 +447,7 @@ func labelsOf(items []c16Item) []string {
 // stands at the end of a fragment typed in an unambiguous context.
 func c16CheckResponse(c *core.Ctx, model c16Table, env *c16Env, ln c16Line, line string, cursor int, frag string, designed bool, items []c16Item, confIdx int) {
 	conf := env.conf
-	cas := c16Case{env.layout, line, cursor, conf, ln.Context, frag}
+	cas := c16Case{env.layout, line, cursor, conf, ln.Context, frag, nil}
 	pfx := "prefix=" + fmt.Sprintf("%q", ln.Prefix)
 	viol := func(clause, class, detail string) {
 		c.Violate(fmt.Sprintf("%s|%s|%s context, %s, fuzzy=%v", clause, class, ln.Context, pfx, conf.Fuzzy), clause,
@@ -570,3 +588,62 @@ func lineSpells(line, label string) bool {
 }
 
 func isWordRune(r rune) bool { return unicode.IsLetter(r) || unicode.IsDigit(r) }
+
+// c16MagnitudeCase: one document in which payee P<i> heads uses[i] transactions
+// and account m:<i> has 2*uses[i] postings, the blocks in ascending order of
+// use; with nothing typed the more frequently used name must come first.
+func c16MagnitudeCase(c *core.Ctx, uses []int) {
+	var b strings.Builder
+	names := []string{"one", "two", "three"}
+	for i, n := range uses {
+		for k := 0; k < n; k++ {
+			fmt.Fprintf(&b, "2001-01-01 P%s\n    m:%s  1 X\n    m:%s  -1 X\n\n", names[i], names[i], names[i])
+		}
+	}
+	base := b.String()
+	lineNo := strings.Count(base, "\n")
+	s := wire.New()
+	s.Initialize(wire.InitOpts{Options: `{"completion":{"maxResults":50,"fuzzyMatching":true,"showCounts":true}}`})
+	s.Initialized()
+	uri := wire.URI(filepath.Join(c.Scratch, "c16_magnitudes.journal"))
+	for _, probe := range []struct {
+		ctx, line, pfx string
+		kind      int
+	}{{"account", "    ", "m:", 6}, {"payee", "2001-03-01 ", "P", 7}} {
+		s.DidOpen(uri, base+probe.line+"\n")
+		r := s.Call("textDocument/completion", wire.DocPos(uri, lineNo, len(probe.line)))
+		s.DidClose(uri)
+		c.Res.Evaluations++
+		c.Res.Nontrivial++
+		c.Count("completions on documents with large use counts", 1)
+		var v struct {
+			Items []c16Item `json:"items"`
+		}
+		if !r.OK() {
+			continue // totality is C06's
+		}
+		_ = json.Unmarshal([]byte(r.Result), &v)
+		pos := map[string]int{}
+		for i, it := range v.Items {
+			if _, dup := pos[it.Label]; !dup {
+				pos[it.Label] = i
+			}
+		}
+		cas := c16Case{Layout: "magnitudes", Line: probe.line, Cursor: len(probe.line), Context: probe.ctx, Uses: uses}
+		for i := 0; i+1 < len(uses); i++ {
+			lo, hi := probe.pfx+names[i], probe.pfx+names[i+1]
+			pl, okl := pos[lo]
+			ph, okh := pos[hi]
+			if !okl || !okh {
+				c.Violate(fmt.Sprintf("every existing name that starts with the fragment is offered|missing name|%s context, large use counts", probe.ctx), "every existing name that starts with the fragment is offered",
+					fmt.Sprintf("uses %v: %q or %q is missing\nlabels: %v", uses, lo, hi, labelsOf(v.Items)), cas)
+				break
+			}
+			if uses[i] < uses[i+1] && pl < ph {
+				c.Violate(fmt.Sprintf("with nothing typed more frequently used names come first|count increases along the list|%s context, large use counts", probe.ctx), "with nothing typed more frequently used names come first",
+					fmt.Sprintf("uses %v: %q (fewer uses) is listed before %q\nlabels: %v", uses, lo, hi, labelsOf(v.Items)), cas)
+				break
+			}
+		}
+	}
+}
